@@ -228,3 +228,20 @@ Fixpoint xt_cleanup_order (x : xt) : list N :=
 
 Definition flat (a : app) : bool :=
   match a with App regs => forallb (fun r => match r with RSub _ => false | _ => true end) regs end.
+
+(* the property: for every context, its cleanup code ran exactly as often as its startup code completed *)
+Definition cleanup_iff_started (l : list event) : Prop :=
+  forall c, count_occ N.eq_dec (exited l) c = count_occ N.eq_dec (entered l) c.
+
+Definition no_shutdown_failure (f : oracle) : Prop := forall u, f (SShutdown u) = false.
+Definition no_teardown_failure (f : oracle) : Prop :=
+  (forall c, f (SExit c) = false) /\ (forall u, f (SCleanup u) = false).
+
+(* failure oracles from a list of failing steps *)
+Definition step_eqb (s t : step) : bool :=
+  match s, t with
+  | SEnter a, SEnter b | SExit a, SExit b | SStartup a, SStartup b | SShutdown a, SShutdown b | SCleanup a, SCleanup b => a =? b
+  | SSite, SSite => true
+  | _, _ => false
+  end.
+Definition fails (l : list step) : oracle := fun s => existsb (step_eqb s) l.
